@@ -678,21 +678,30 @@ def aux_lifetime(ctx):
               "for tasker in taskers: tasker.done = True", "`done` marks every named auxiliary complete")
     nd = ctx.fn("needing", "NeedDoneAux.action")
     N = FuncView(ctx, nd)
-    forms = {"any": "any([aux.done for aux in frame.auxes])",
-             "all": "frame.auxes and all([aux.done for aux in frame.auxes])"}
+    # by partial evaluation on the word given for the aux (`any` / `all`), then the named form by its guard
+    from ..rules import peval
+
+    def canon(e):
+        t = src(e).replace(" ", "")
+        return t.replace("([", "(").replace("])", ")").replace("((", "(").replace("))", ")")
+    forms = {"any": "any(aux.doneforauxinframe.auxes)", "all": "frame.auxesandall(aux.doneforauxinframe.auxes)"}
     for word, want in forms.items():
-        t = N.tests(lambda t, word=word: isinstance(t, ast.Compare) and src(t) == "tasker == %r" % word)
-        N.need(t, "tasker == %r test" % word)
-        asg = [n for n in N.stores("result") if N.dominated_by_edge([n], t[0], "T")]
-        ok = bool(asg) and all(src(a.ast.value).replace(" ", "") == want.replace(" ", "") for a in asg)
-        ctx.check(ok, "T9-done", nd, "tasker == %r -> result = %s" % (word, want),
+        got = [canon(e) for k, e, h in peval(N, {"tasker": word}) if k == "return" and e is not None]
+        # the frame-less form (no `in frame`) is decided separately below; with a frame the result is the documented reduction
+        got = [g for g in got if g != "tasker.done" and g != "'%s'.done" % word]
+        ctx.check(bool(got) and all(g == want for g in got), "T9-done", nd, "tasker == %r -> %s (got %s)" % (word, want, sorted(set(got))),
                   "`if aux %s is done` must observe the completion state of the frame's auxiliaries" % word)
-    t = N.tests(lambda t: src(t) == "tasker in frame.auxes")
-    asg = [n for n in N.stores("result") if t and N.dominated_by_edge([n], t[0], "T")]
-    ctx.check(bool(asg) and all(src(a.ast.value) == "tasker.done" for a in asg), "T9-done", nd,
-              "named aux: result = tasker.done when it is an aux of the frame", "named form observes that auxiliary")
-    rets = [n for n in N.cfg.nodes if n.kind == "return"]
-    ctx.check(bool(rets) and all(dotted(r.ast.value) == "result" for r in rets), "T9-done", nd, "returns result", "")
+    named = {canon(e) for k, e, h in peval(N, {"tasker": "SOMEAUX"}) if k == "return" and e is not None}
+    inline_guard = "'SOMEAUX'.doneif'SOMEAUX'inframe.auxeselseFalse"
+    okn = bool(named) and named <= {inline_guard, "'SOMEAUX'.done", "False"} and (inline_guard in named or {"'SOMEAUX'.done", "False"} <= named)
+    if okn and inline_guard not in named:
+        # statement form: the assignment/return of tasker.done given a frame sits under `tasker in frame.auxes`
+        sites = [n for n in N.cfg.nodes if n.kind != "test" and any(isinstance(x, ast.Attribute) and src(x) == "tasker.done" for x in N.cfg.walk_node(n))]
+        guarded = [n for n in sites if "tasker in frame.auxes" in N.symfacts(n)]
+        framed = [n for n in sites if "frame" in N.facts(n) or "tasker in frame.auxes" in N.symfacts(n) or not any(f in N.facts(n) for f in ("not frame",))]
+        okn = bool(guarded) and all(("tasker in frame.auxes" in N.symfacts(n)) or ("not frame" in N.facts(n)) for n in sites)
+    ctx.check(okn, "T9-done", nd, "named aux: result = tasker.done when it is an aux of the frame, else False (got %s)" % sorted(named),
+              "named form observes that auxiliary")
     nd1 = ctx.fn("needing", "NeedDone.action")
     v = [n for n in ast.walk(nd1) if isinstance(n, ast.Return)]
     N1 = FuncView(ctx, nd1)
